@@ -60,6 +60,14 @@ OK03(e) == /\ Outcome(e.block) /\ Outcome(e.async) /\ Outcome(e.poll) /\ Outcome
 Kinds == {"ok", "incomplete", "eof", "err"}
 OK03Short(e) == \A i \in 1..Len(e.rows) : \A j \in 2..6 : e.rows[i][j] \in Kinds
 
+\* ---- frames of 4 MiB .. 2^28 bytes, complete or cut short: inputs too large to travel as JSON; the harness reports
+\* the KIND of each front-end's outcome (block, async, poll, poll with a Pending before every read) and whether the
+\* decoded values are equal
+BigDec03(e) == \A i \in 1..4 : e.kinds[i] \in {"ok", "incomplete", "eof", "err"}
+BigDec06(e) ==
+    IF e.complete THEN (\A i \in 1..4 : e.kinds[i] = "ok") /\ e.same_packet /\ e.total = e.len /\ e.pos = e.len
+    ELSE e.kinds = <<"incomplete", "eof", "eof", "eof">>      \* (also C07: a strict prefix of a valid encoding)
+
 \* ---- C14
 IoErr(k, en, a0, kind) == k = "err" /\ en = "IoError" /\ a0 = kind
 OK14(e) ==
@@ -87,6 +95,7 @@ Accept(e) ==
     CASE e.ev = "Cut"   -> (Prop = "C07" => OK07(e))
       [] e.ev = "Dec3"  -> (CASE Prop = "C06" -> OK06(e) [] Prop = "C03" -> OK03(e) [] OTHER -> TRUE)
       [] e.ev = "DecShort" -> (Prop = "C03" => OK03Short(e))
+      [] e.ev = "BigDec" -> (CASE Prop = "C03" -> BigDec03(e) [] Prop = "C06" -> BigDec06(e) [] OTHER -> TRUE)
       [] e.ev = "Fault" -> (Prop = "C14" => OK14(e))
       [] e.ev = "Conv"  -> (Prop = "C14" => OK14Conv(e))
       [] e.ev = "End"   -> l = Len(Rec)
